@@ -158,6 +158,24 @@ class Program:
         if os.environ.get("SA_NO_INLINE") != "1":
             from . import inline
 
+            # (1) functions that were merely renamed get their original names back
+            try:
+                rn = inline.undo_renames({n: m.tree for n, m in self.modules.items()})
+                if rn:
+                    self.inlined.setdefault("<renamed back>", []).extend(rn)
+            except Exception as e:
+                self.expansion_errors.append(f"<renames>: {type(e).__name__}: {e}")
+            # (2) per module: constants, tables, helper calls
+            for name, m in self.modules.items():
+                try:
+                    n_inl, sites = inline.expand_module(m.tree, name)
+                except Exception as e:  # a defect of the expander must never take the analysis down: analyse the module as written
+                    m.tree = ast.parse(m.source, filename=m.path)
+                    n_inl, sites = 0, []
+                    self.expansion_errors.append(f"{name}: {type(e).__name__}: {e}")
+                if n_inl:
+                    self.inlined[name] = sites
+            # (3) program wide: new properties / expression methods
             try:
                 pr = inline.expand_new_properties({n: m.tree for n, m in self.modules.items()})
                 pr += inline.expand_new_expression_methods({n: m.tree for n, m in self.modules.items()})
@@ -194,17 +212,6 @@ class Program:
                 except (SyntaxError, UnicodeDecodeError, OSError) as e:
                     self.parse_failures.append(f"{path}: {e}")
                     continue
-                if into is self.modules and os.environ.get("SA_NO_INLINE") != "1":
-                    from . import inline
-
-                    try:
-                        n_inl, sites = inline.expand_module(tree, name)
-                    except Exception as e:  # a defect of the expander must never take the analysis down: analyse the module as written
-                        tree = ast.parse(source, filename=path)
-                        n_inl, sites = 0, []
-                        self.expansion_errors.append(f"{name}: {type(e).__name__}: {e}")
-                    if n_inl:
-                        self.inlined[name] = sites
                 into[name] = ModuleInfo(
                     name=name, path=path, rel=os.path.relpath(path, self.root), tree=tree, source=source
                 )
